@@ -496,7 +496,10 @@ def run(ck):
         body = u(lp[0])
         tp = [c for c in ast.walk(lp[0]) if isinstance(c, ast.Call) and call_name(c) == '_treat_atom_prefix']
         app = [st_ for st_ in lp[0].body if isinstance(st_, ast.Expr) and call_attr(st_.value) == 'append' and u(st_.value.func.value) == 'prefixed_atoms']
-        ok = len(tp) == 1 and u(tp[0]) in ('_treat_atom_prefix(*atom)', '_treat_atom_prefix(atom[0], atom[1])') and len(app) == 1 and \
+        tg_ = lp[0].target
+        forms_ = ('_treat_atom_prefix(*{0})'.format(u(tg_)), '_treat_atom_prefix({0}[0], {0}[1])'.format(u(tg_))) if isinstance(tg_, ast.Name) else \
+            ('_treat_atom_prefix({}, {})'.format(*[u(e) for e in tg_.elts]),) if isinstance(tg_, ast.Tuple) and len(tg_.elts) == 2 else ()
+        ok = len(tp) == 1 and u(tp[0]) in forms_ and len(app) == 1 and \
             u(app[0].value.args[0]) == '[prefixed_reference, full_attributes]' and 'prefixed_reference, attributes = _treat_atom_prefix(' in body and \
             unconditional_in(pe, lp[0].body, app[0])
     ck.ob('DT-prefix-order', ff.loc(pe), ok, 'an [ edges ] line joins the two normalised keys (prefix from the written prefix or from the order attribute); a [ non-edges ] line '
@@ -541,7 +544,7 @@ def run(ck):
         return len(lens) == 2      # more than two columns, fewer than two columns
     ppat = ff.func('_parse_patterns')
     st = stores(ppat, 'context.patterns.append')
-    ok = len(st) == 1 and u(st[0][0].value.args[0]) == 'atoms' and u(single_def(ppat, 'atoms')) == '_get_atoms(tokens, natoms=None)' and \
+    ok = len(st) == 1 and u(st[0][0].value.args[0]) == 'atoms' and u(single_def(ppat, 'atoms')) in ('_get_atoms(tokens, natoms=None)', '_get_atoms(tokens, None)') and \
         flow.equivalent(st[0][1], ('atom', ('Eq', "'link'", 'context_type')))[0] | flow.equivalent(st[0][1], ('atom', ('Eq', 'context_type', "'link'")))[0]
     ck.analysed(ff, ppat)
     ck.ob('PROV-sections', ff.loc(ppat), ok, 'a [ patterns ] line adds one pattern made of all atoms (with attributes) written on it, in links only', key='PROV-sections|patterns')
